@@ -17,6 +17,7 @@ if [ ! -d "$d/repo" ]; then
 fi
 rsync -a --exclude target --exclude Cargo.toml --exclude .cargo /verif/harness/ "$d/harness/"
 git -C "$d/repo" checkout -q -- . 
+[ -f "$d/repo/Cargo.lock" ] || cp /repo/Cargo.lock "$d/repo/Cargo.lock"
 if [ "$patch" != "-" ]; then git -C "$d/repo" apply "$patch" || { echo "patch does not apply"; exit 2; }; fi
 cd /verif
 for c in "$@"; do GV_SCRATCH="$d" ./check "$c" --tier "${TIER:-quick}" 2>&1 | tail -4; done
